@@ -194,3 +194,26 @@ impl CanonicalRequest {
     broadcast use axiom_sha256_len;
 //@ end
 }
+
+// ---- Debug rendering of a canonical request (C08: total; C17: a canonical request holds no key material - nothing to prove about the text) ----
+//@ fn canonical.rs debug_headers
+//@ params headers
+//@ props C08
+//@ replace 1 `String::from_utf8_lossy(result_except_last).to_string()` => `bytes_to_string_lossy(result_except_last)`
+//@ bodystart
+    proof { lemma_string_key_model(); }
+//@ loop 1
+        invariant true,
+//@ loop 2
+            invariant true,
+//@ end
+pub mod creq_debug_m {
+    use super::*;
+    use std::fmt::Debug;
+impl Debug for CanonicalRequest {
+//@ fn canonical.rs impl Debug for CanonicalRequest :: fmt
+//@ params f
+//@ props C08 C17
+//@ end
+}
+}
